@@ -259,7 +259,7 @@ def c12_ctx(R):
     import nsl.Errors as E
     Ctx = cls.Context
     names = ["a", "b"]
-    for depth in (1, 2, 3, 4):
+    for depth in ((1, 2, 3, 4) if R.tier != "thorough" else (1, 2, 3, 4, 5, 6)):        # context chain depth (thorough tier: up to 6)
         # each name is declared at one level or nowhere
         for where in itertools.product(range(-1, depth), repeat=len(names)):
             chain = []
